@@ -7,6 +7,7 @@ R3 exactly once: a value that is already translated (the stored mount root entry
 R4 table coherence: the per-mount mapping slot is written whenever the mount slot is (allocation, over-mount, umount)
 R5 remap_id arithmetic and effective-mapping selection
 """
+import re
 from pyfbr import core, vf
 from rules import common
 from rules import c07
@@ -243,7 +244,11 @@ def r5_arith(ctx, F):
     b = F.method(VFS, "get_effective_id_mapping")
     v = vf.VF(b, inline_depth=0)
     r = vf.render(v.ret(), b, short=True, vfx=v)
-    ctx.check("R5-arithmetic", "effective/per-mount-first", "self.mount_id_mappings" in r and "fs_idx" in r and "=> self.id_mapping" in r,
+    # the global mapping is the answer exactly on the arm where the per-mount slot is empty
+    m = re.search(r"discr\(([^|]*?)\)(?: notin \[1\]|==0) => self\.id_mapping(?: \||\})", r)
+    ok = m is not None and "self.mount_id_mappings" in m.group(1) and "fs_idx" in m.group(1) and \
+        ("discr(%s)==1 => Some(some(%s))" % (m.group(1), m.group(1)) in r or "discr(%s)==1 => %s}" % (m.group(1), m.group(1)) in r)
+    ctx.check("R5-arithmetic", "effective/per-mount-first", ok,
               "get_effective_id_mapping no longer prefers the per-mount mapping and falls back to the global one: %s" % r[:300], loc=b.loc())
 
 
@@ -251,7 +256,7 @@ META = {
     "technique": "MIR value-flow of the translation helpers (target, direction, mount index), typestate 'already translated' for the stored mount root entry, table-coherence of slot writers, dominance of the context translation over dispatch",
     "text": "Decides: which helper translates which value in which direction with which mount's mapping, for every entry/attribute path through "
             "the Vfs; setattr and the request context are translated inbound before the backend/dispatch; the stored mount root entry is never "
-            "translated again; every function that fills or vacates a mount slot also sets or clears that slot's mapping under the same conditions; "
+            "translated again; every function that fills or vacates a mount slot also sets or clears that slot's mapping under the same conditions, and mount_with_id_mapping stores the caller's mapping itself; "
             "remap_id's range test and arithmetic; per-mount-then-global selection.",
     "note": "Shares C07.R2 (conversion coverage). Not decided: numeric values at run time; pseudo-directory owners (observation in DESIGN.md).",
 }
